@@ -57,8 +57,8 @@ t2data_format_specification = {
                         '_option_str', 'diff0', 'texp', 'be'],
                        ['2d'] * 2 + ['4d'] * 3 + ['24s'] + ['10.3e'] * 3],
     'param1': [['max_iterations', 'print_level', 'max_timesteps',
-               'max_duration', 'print_interval', '_option_str', 'texp', 'be'],
-              ['2d'] * 2 + ['4d'] * 3 + ['24s'] + ['10.3e'] * 2],
+               'max_duration', 'print_interval', '_option_str', '', 'texp', 'be'],
+              ['2d'] * 2 + ['4d'] * 3 + ['24s', '10x'] + ['10.3e'] * 2],
     'param2': [['tstart', 'tstop', 'const_timestep', 'max_timestep',
                'print_block', '', 'gravity', 'timestep_reduction', 'scale'],
               ['10.3e'] * 4 + ['5s', '5x'] + ['10.4e'] * 3],
